@@ -1,6 +1,6 @@
 (* C06: the generated schema accepts exactly what the specification of deserialization accepts. *)
 From Coq Require Import List String ZArith Bool Arith Lia.
-From AV Require Import Core.Json Core.Text Small.Ordering Deser.Model Deser.Spec Schema.Json Schema.Build.
+From AV Require Import Core.Json Core.Text Small.Ordering Deser.Model Deser.Spec Schema.Json Schema.Build Schema.Unfold.
 Import ListNotations.
 Open Scope string_scope.
 
@@ -43,14 +43,192 @@ Proof.
     rewrite memt_dedup. unfold memt. apply existsb_exists. exists (prim_type p). split.
     - now apply in_map.
     - destruct (prim_type p); reflexivity. }
-  unfold literal_schema. destruct vs as [|v [|v' r]].
-  - simpl. now rewrite andb_false_r.
-  - cbn [jvalid nullable existsb orb flat_kw andb]. rewrite andb_true_r.
+  unfold literal_schema. destruct vs as [|v [|v' r]]; rewrite jvalid_JS; cbn [nullable existsb andb orb forallb kw_valid flat_kw].
+  - now rewrite andb_false_r.
+  - rewrite andb_true_r.
     destruct (existsb (fun p => json_eq (prim_data p) d) [v]) eqn:E.
     + rewrite Ht by reflexivity. simpl in E. rewrite orb_false_r in E. now rewrite E.
     + simpl in E. rewrite orb_false_r in E. rewrite E. apply andb_false_r.
-  - cbn [jvalid nullable existsb orb flat_kw andb]. rewrite andb_true_r.
+  - rewrite andb_true_r.
     destruct (existsb (fun p => json_eq (prim_data p) d) (v :: v' :: r)) eqn:E.
     + rewrite Ht by reflexivity. cbn [existsb] in E. now rewrite E.
     + cbn [existsb] in E. rewrite E. apply andb_false_r.
+Qed.
+
+(* ------------------------------------------------------------------ _visited_union *)
+Lemma memt_app t a b : memt t (a ++ b) = memt t a || memt t b.
+Proof. unfold memt. apply existsb_app. Qed.
+
+Lemma type_ok_app a b d : type_ok (a ++ b) d = type_ok a d || type_ok b d.
+Proof.
+  destruct d as [|x|z|f|s|l|l|tg]; try destruct f as [q| |]; cbn [type_ok]; rewrite ?memt_app; try reflexivity;
+    repeat match goal with |- context [memt ?t ?l] => destruct (memt t l) end;
+    try reflexivity; destruct (Z.eqb _ _); reflexivity.
+Qed.
+
+Lemma memt_filter t u ts : jtype_eqb t u = false -> memt t (filter (fun x => negb (jtype_eqb x u)) ts) = memt t ts.
+Proof.
+  intros H. induction ts as [|x r IH]; [reflexivity|]. cbn [filter memt existsb].
+  destruct (jtype_eqb x u) eqn:E; cbn [negb].
+  - assert (x = u) by (destruct x, u; simpl in E; congruence). subst.
+    fold (memt t (filter (fun x => negb (jtype_eqb x u)) r)). rewrite IH. fold (memt t r). now rewrite H.
+  - cbn [existsb]. fold (memt t (filter (fun x => negb (jtype_eqb x u)) r)) (memt t r). now rewrite IH.
+Qed.
+
+Lemma type_ok_norm ts d : type_ok (norm_types ts) d = type_ok ts d.
+Proof.
+  unfold norm_types. destruct (memt JInteger ts && memt JNumber ts) eqn:E; [|reflexivity].
+  apply andb_true_iff in E. destruct E as [Hi Hn].
+  assert (Hn' : memt JNumber (filter (fun t => negb (jtype_eqb t JInteger)) ts) = true)
+    by (rewrite memt_filter; auto).
+  destruct d as [|x|z|f|s|l|l|tg]; try destruct f as [q| |]; cbn [type_ok];
+    rewrite ?Hn', ?Hn, ?Hi, ?orb_true_r; try reflexivity; rewrite memt_filter; auto.
+Qed.
+
+Lemma forallb_ext' {A} (f g : A -> bool) l : (forall x, f x = g x) -> forallb f l = forallb g l.
+Proof. intros H. induction l as [|x r IH]; [reflexivity|]. cbn [forallb]. now rewrite H, IH. Qed.
+
+(* keywords that hold vacuously of null *)
+Definition null_vacuous (k : kw) : bool :=
+  match k with
+  | KwCon _ | KwSetUnique | KwItems _ | KwPrefixItems _ | KwProperties _ | KwRequired _ | KwAddProps _
+  | KwPatternProps _ | KwPropertyNames _ | KwDepReq _ => true
+  | _ => false
+  end.
+
+(* the shape of a schema having a "type" among the builder's outputs: one type keyword, then only such keywords,
+   or const / enum *)
+Definition typed_shape (s : js) : bool :=
+  match s with
+  | JS (KwType _ :: rest) =>
+      forallb (fun k => null_vacuous k || match k with KwConst _ | KwEnum _ => true | _ => false end) rest
+  | _ => false
+  end.
+
+Lemma null_vacuous_valid ss ds fuel kws k : null_vacuous k = true -> kw_valid ss ds fuel kws k PNone = true.
+Proof. destruct k; try discriminate; try reflexivity; try (destruct c; reflexivity); destruct ss; reflexivity. Qed.
+
+Lemma kw_valid_siblings ss ds fuel kws kws' k d :
+  prefix_len kws = prefix_len kws' -> prop_names kws = prop_names kws' -> prop_patterns kws = prop_patterns kws' ->
+  kw_valid ss ds fuel kws k d = kw_valid ss ds fuel kws' k d.
+Proof.
+  intros H1 H2 H3. destruct k; try reflexivity; cbn [kw_valid]; rewrite ?H1; try reflexivity.
+  unfold additional. now rewrite H2, H3.
+Qed.
+
+Lemma add_null_valid ss ds fuel s d :
+  typed_shape s = true -> has_const_enum s = false ->
+  jvalid ss ds fuel (add_null s) d = jvalid ss ds fuel s d || is_null d.
+Proof.
+  destruct s as [b|[|k rest]]; try discriminate. destruct k; try discriminate.
+  cbn [typed_shape]. intros Hs Hc. unfold has_const_enum in Hc. cbn [kws_of existsb] in Hc.
+  assert (Hrest : map (fun k => match k with KwType ts0 => if memt JNull ts0 then k else KwType (ts0 ++ [JNull]) | _ => k end) rest = rest).
+  { clear Hc. induction rest as [|k r IH]; [reflexivity|]. cbn [forallb] in Hs. apply andb_true_iff in Hs. destruct Hs as [Hk Hr].
+    cbn [map]. rewrite IH by exact Hr. destruct k; try reflexivity. discriminate. }
+  assert (Hnn : forall k0 l, forallb (fun k => null_vacuous k || match k with KwConst _ | KwEnum _ => true | _ => false end) l = true ->
+                 nullable (k0 :: l) = nullable [k0]).
+  { intros k0 l Hl. unfold nullable. cbn [existsb]. rewrite orb_false_r.
+    assert (existsb (fun k => match k with KwNullable => true | _ => false end) l = false).
+    { induction l as [|x r IH]; [reflexivity|]. cbn [forallb] in Hl. apply andb_true_iff in Hl. destruct Hl as [Hx Hr].
+      cbn [existsb]. rewrite IH by exact Hr. destruct x; try reflexivity; discriminate. }
+    rewrite H. apply orb_false_r. }
+  assert (Hvac : is_null d = true -> forallb (fun k => kw_valid ss ds fuel (KwType ts :: rest) k d) rest = true).
+  { intros Hd. destruct d; try discriminate. apply forallb_forall. intros k Hk.
+    rewrite forallb_forall in Hs. specialize (Hs k Hk). apply orb_true_iff in Hs. destruct Hs as [Hs|Hs].
+    - now apply null_vacuous_valid.
+    - exfalso. assert (existsb (fun k => match k with KwConst _ | KwEnum _ => true | _ => false end) rest = true).
+      { apply existsb_exists. exists k. split; auto. }
+      simpl in Hc. congruence. }
+  unfold add_null. cbn [map]. rewrite Hrest.
+  rewrite !jvalid_JS. rewrite !(Hnn _ rest Hs). cbn [nullable existsb orb andb forallb].
+  cbn [orb andb].
+  destruct (memt JNull ts) eqn:Hm.
+  - (* already nullable type *)
+    destruct (is_null d) eqn:Hd; [|rewrite !orb_false_r; reflexivity].
+    rewrite orb_true_r. cbn [kw_valid flat_kw]. destruct d; try discriminate. cbn [type_ok]. rewrite Hm.
+    now rewrite Hvac.
+  - cbn [kw_valid flat_kw]. rewrite type_ok_app.
+    assert (Hsib : forallb (fun k => kw_valid ss ds fuel (KwType (ts ++ [JNull]) :: rest) k d) rest
+                   = forallb (fun k => kw_valid ss ds fuel (KwType ts :: rest) k d) rest).
+    { apply forallb_ext'. intros k. apply kw_valid_siblings; reflexivity. }
+    rewrite Hsib.
+    destruct (is_null d) eqn:Hd.
+    + destruct d; try discriminate. cbn [type_ok memt existsb jtype_eqb orb]. rewrite Hm. cbn [orb].
+      rewrite Hvac by reflexivity. reflexivity.
+    + rewrite orb_false_r.
+      assert (type_ok [JNull] d = false) by (destruct d as [|x|z|f|s|l|l|tg]; try destruct f; try reflexivity; discriminate).
+      rewrite H. rewrite !orb_false_r. reflexivity.
+Qed.
+
+Lemma jvalid_empty ss ds fuel d : jvalid ss ds fuel (JS []) d = true.
+Proof. rewrite jvalid_JS. reflexivity. Qed.
+
+Lemma jvalid_only_type ss ds fuel ts d : jvalid ss ds fuel (JS [KwType ts]) d = type_ok ts d.
+Proof. rewrite jvalid_JS. cbn. now rewrite andb_true_r. Qed.
+
+Lemma jvalid_anyof ss ds fuel rs d :
+  jvalid ss ds fuel (JS [KwAnyOf rs]) d = existsb (fun r => jvalid ss ds fuel r d) rs.
+Proof.
+  rewrite jvalid_JS. cbn [nullable existsb andb orb forallb kw_valid]. rewrite andb_true_r.
+  induction rs as [|r rs IH]; [reflexivity|]. cbn [any_valid existsb]. now rewrite IH.
+Qed.
+
+Lemma only_type_some s ts : only_type s = Some ts -> s = JS [KwType ts].
+Proof. destruct s as [b|[|k [|k' r]]]; try discriminate; destruct k; try discriminate. cbn. congruence. Qed.
+
+Lemma is_null_schema_inv r : is_null_schema r = true -> r = JS [KwType [JNull]].
+Proof.
+  destruct r as [b|[|k [|k' kl]]]; try discriminate; destruct k; try discriminate;
+    destruct ts as [|t [|t' tl]]; try discriminate; destruct t; try discriminate; reflexivity.
+Qed.
+
+(* the schema of a union accepts exactly the data accepted by one of the alternatives' schemas;
+   the hypothesis describes the builder's outputs having a "type" (see typed_shape) *)
+Theorem visited_union_valid ss ds fuel rs d :
+  rs <> [] ->
+  (forall r, In r rs -> get_type r <> None -> typed_shape r = true) ->
+  jvalid ss ds fuel (visited_union rs) d = existsb (fun r => jvalid ss ds fuel r d) rs.
+Proof.
+  intros Hne Hshape. unfold visited_union.
+  destruct rs as [|r1 [|r2 rest]]; [congruence | cbn [existsb]; now rewrite orb_false_r |].
+  set (rs := r1 :: r2 :: rest) in *.
+  destruct (existsb is_empty rs) eqn:He.
+  { rewrite jvalid_empty. symmetry. apply existsb_exists. apply existsb_exists in He. destruct He as [r [Hin Hr]].
+    exists r. split; [exact Hin|]. destruct r as [b|[|k l]]; try discriminate. apply jvalid_empty. }
+  destruct (forallb (fun r => match only_type r with Some _ => true | None => false end) rs) eqn:Ho.
+  { rewrite jvalid_only_type, type_ok_norm.
+    clear - Ho. induction rs as [|r l IH]; [destruct d as [|x|z|f|s|l|l|tg]; try destruct f; reflexivity|].
+    cbn [forallb] in Ho. apply andb_true_iff in Ho. destruct Ho as [Hr Hl].
+    cbn [flat_map existsb]. rewrite type_ok_app, IH by exact Hl.
+    destruct (only_type r) as [ts|] eqn:E; [|discriminate]. apply only_type_some in E. subst r.
+    now rewrite jvalid_only_type. }
+  assert (Hany : jvalid ss ds fuel (JS [KwAnyOf rs]) d = existsb (fun r => jvalid ss ds fuel r d) rs) by apply jvalid_anyof.
+  destruct rest as [|r3 rest']; [|exact Hany].
+  destruct (forallb (fun r => match get_type r with Some _ => true | None => false end) rs
+            && (is_null_schema r1 || is_null_schema r2) && negb (has_const_enum r1 || has_const_enum r2)) eqn:Hc; [|exact Hany].
+  apply andb_true_iff in Hc. destruct Hc as [Hc Hce]. apply andb_true_iff in Hc. destruct Hc as [Hty Hnull].
+  apply negb_true_iff, orb_false_iff in Hce. destruct Hce as [Hce1 Hce2].
+  subst rs. cbn [forallb] in Hty. rewrite andb_true_r in Hty. apply andb_true_iff in Hty. destruct Hty as [Ht1 Ht2].
+  assert (Hn : forall r, is_null_schema r = true -> jvalid ss ds fuel r d = is_null d).
+  { intros r Hr. apply is_null_schema_inv in Hr. subst r.
+    rewrite jvalid_only_type. destruct d as [|x|z|fl0|s|l|l|tg]; try destruct fl0; reflexivity. }
+  cbn [existsb]. rewrite orb_false_r.
+  assert (S1 : typed_shape r1 = true).
+  { apply Hshape; [left; reflexivity|]. intros Hg. rewrite Hg in Ht1. discriminate. }
+  assert (S2 : typed_shape r2 = true).
+  { apply Hshape; [right; left; reflexivity|]. intros Hg. rewrite Hg in Ht2. discriminate. }
+  destruct (is_null_schema r1) eqn:N1.
+  - rewrite (add_null_valid _ _ _ _ _ S2 Hce2). rewrite (Hn r1 N1). apply orb_comm.
+  - cbn [orb] in Hnull. rewrite (add_null_valid _ _ _ _ _ S1 Hce1). now rewrite (Hn r2 Hnull).
+Qed.
+
+(* the merge performed before the fix (null added to the types of any typed schema, const / enum included) is refuted:
+   Optional[Literal[1]] gave {"type": ["integer", "null"], "const": 1}, which rejects null *)
+Definition old_optional_merge (a b : js) : js := add_null (if is_null_schema a then b else a).
+
+Theorem old_optional_merge_refuted :
+  exists a b d, typed_shape a = true /\ typed_shape b = true /\
+    jvalid false [] 0 (old_optional_merge a b) d <> (jvalid false [] 0 a d || jvalid false [] 0 b d).
+Proof.
+  exists (literal_schema [LInt 1]), (JS [KwType [JNull]]), PNone. repeat split. vm_compute. discriminate.
 Qed.
